@@ -47,6 +47,8 @@ Fixpoint clookup (k : key) (c : cache_t) : option (option value) :=
   | (k', o) :: r => if bytes_eqb k k' then Some o else clookup k r
   end.
 
+Definition is_nil {A} (l : list A) : bool := match l with [] => true | _ => false end.
+
 Record params := { minkeys : N; minsize : N; forcesize : N }.
 
 Record st := {
@@ -62,6 +64,8 @@ Record st := {
   closed : bool;                      (* committer closed: set by the flush callback on its first error *)
   pstart : key; pend : key;           (* pipelinedCommitInfo.pipelinedStart / pipelinedEnd, [] = unset *)
   primary : key;                      (* committer.primaryKey, [] = unset: first key of the first flush that is sent *)
+  tmrun : bool;                       (* ttlManager running: keep-alive of the primary lock *)
+  perr : option key;                  (* the failed flush returned ErrKeyExist for this key (not yet reported) *)
   (* ghost *)
   flog : list (N * buf * bool);       (* every call of the flush function: generation, buffer, sent (not closed at start) *)
   segs : list (list (key * value));   (* write ops of completed segments (between triggered flushes) *)
@@ -72,7 +76,7 @@ Record st := {
 
 Definition init : st :=
   {| mem := []; stages := []; flushing := None; inflight := false; pending := None; store := [];
-     cache := None; gen := 0; flen := 0; fsize := 0; closed := false; pstart := []; pend := []; primary := [];
+     cache := None; gen := 0; flen := 0; fsize := 0; closed := false; pstart := []; pend := []; primary := []; tmrun := false; perr := None;
      flog := []; segs := []; seg := []; segstages := []; running := 0; maxrun := 0 |}.
 
 Inductive op :=
@@ -86,7 +90,11 @@ Inductive op :=
 | OFlushWait (wo : bool)
 | OStaging | ORelease | OCleanup
 | OLen | OSize
-| OStoreStep (i : N).
+| OStoreStep (i : N)
+| OCompleteExist (k : key)     (* the running flush function returns ErrKeyExist{k} (store rejected an Insert / CheckNotExists) *)
+| OTmStart                     (* the Flush batch holding the primary succeeded while the flush still runs: keep-alive starts *)
+| OEnd                         (* Commit or Rollback is over: committer.close() stops the keep-alive *)
+| OTm.                         (* query: ttlManager running? *)
 
 Inductive resp :=
 | RUnit
@@ -95,6 +103,7 @@ Inductive resp :=
 | RBatch (m : buf) (calls : list (list key))
 | RFlush (triggered : bool) (status : N) (started : option (N * buf))   (* status 0 ok, 1 flush error, 2 staging error *)
 | RWait (ok : bool)
+| RErrExist (k : key) (v : option value)   (* the reported error is ErrKeyExist{k} with Value v (handleAlreadyExistErr) *)
 | RNum (n : N).
 
 Definition flushing_lookup (s : st) (k : key) : option value :=
@@ -146,25 +155,25 @@ Definition need_flush (P : params) (s : st) (memsz : N) : bool :=
 Definition upd_field_mem (s : st) (m : buf) (sg : list (key * value)) : st :=
   {| mem := m; stages := stages s; flushing := flushing s; inflight := inflight s; pending := pending s;
      store := store s; cache := cache s; gen := gen s; flen := flen s; fsize := fsize s; closed := closed s;
-     pstart := pstart s; pend := pend s; primary := primary s; flog := flog s; segs := segs s; seg := sg;
+     pstart := pstart s; pend := pend s; primary := primary s; tmrun := tmrun s; perr := perr s; flog := flog s; segs := segs s; seg := sg;
      segstages := segstages s; running := running s; maxrun := maxrun s |}.
 
 Definition set_cache (s : st) (c : option cache_t) : st :=
   {| mem := mem s; stages := stages s; flushing := flushing s; inflight := inflight s; pending := pending s;
      store := store s; cache := c; gen := gen s; flen := flen s; fsize := fsize s; closed := closed s;
-     pstart := pstart s; pend := pend s; primary := primary s; flog := flog s; segs := segs s; seg := seg s;
+     pstart := pstart s; pend := pend s; primary := primary s; tmrun := tmrun s; perr := perr s; flog := flog s; segs := segs s; seg := seg s;
      segstages := segstages s; running := running s; maxrun := maxrun s |}.
 
 Definition set_stages (s : st) (m : buf) (sts : list buf) (sg : list (key * value)) (sgs : list (list (key * value))) : st :=
   {| mem := m; stages := sts; flushing := flushing s; inflight := inflight s; pending := pending s;
      store := store s; cache := cache s; gen := gen s; flen := flen s; fsize := fsize s; closed := closed s;
-     pstart := pstart s; pend := pend s; primary := primary s; flog := flog s; segs := segs s; seg := sg;
+     pstart := pstart s; pend := pend s; primary := primary s; tmrun := tmrun s; perr := perr s; flog := flog s; segs := segs s; seg := sg;
      segstages := sgs; running := running s; maxrun := maxrun s |}.
 
 Definition set_store (s : st) (b : buf) : st :=
   {| mem := mem s; stages := stages s; flushing := flushing s; inflight := inflight s; pending := pending s;
      store := b; cache := cache s; gen := gen s; flen := flen s; fsize := fsize s; closed := closed s;
-     pstart := pstart s; pend := pend s; primary := primary s; flog := flog s; segs := segs s; seg := seg s;
+     pstart := pstart s; pend := pend s; primary := primary s; tmrun := tmrun s; perr := perr s; flog := flog s; segs := segs s; seg := seg s;
      segstages := segstages s; running := running s; maxrun := maxrun s |}.
 
 (* while the flush function runs its mutations reach the store one by one, in any order (Flush RPCs of several regions,
@@ -188,7 +197,7 @@ Definition complete (s : st) (o : bool) : st :=
     {| mem := mem s; stages := stages s; flushing := flushing s; inflight := false; pending := Some eff;
        store := (if eff then match flushing s with Some (_, fb) => overlay fb (store s) | None => store s end else store s);
        cache := cache s; gen := gen s; flen := flen s; fsize := fsize s; closed := closed s || negb eff;
-       pstart := pstart s; pend := pend s; primary := primary s; flog := flog s; segs := segs s; seg := seg s;
+       pstart := pstart s; pend := pend s; primary := primary s; tmrun := eff && (tmrun s || match flushing s with Some (_, fb) => negb (is_nil fb) | None => false end);   (* an error runs committer.close(): the keep-alive stops *) perr := perr s; flog := flog s; segs := segs s; seg := seg s;
        segstages := segstages s; running := N.pred (running s); maxrun := maxrun s |}
   else s.
 
@@ -200,7 +209,6 @@ Definition wait (s : st) (wo : bool) : st * bool :=
 Definition first_key (b : buf) : key := match b with [] => [] | (k, _) :: _ => k end.
 Fixpoint last_key (b : buf) : key :=
   match b with [] => [] | (k, _) :: r => match r with [] => k | _ => last_key r end end.
-Definition is_nil {A} (l : list A) : bool := match l with [] => true | _ => false end.
 
 (* bounds update of the flush callback (txn.go) *)
 Definition upd_start (ps : key) (b : buf) : key :=
@@ -219,14 +227,37 @@ Definition start_flush (s : st) : st :=
      pstart := (if sent then upd_start (pstart s) fb else pstart s);
      pend := (if sent then upd_end (pend s) fb else pend s);
      primary := (if sent && is_nil (primary s) then first_key fb else primary s);
+     tmrun := tmrun s; perr := None;
      flog := flog s ++ [(g, fb, sent)]; segs := segs s ++ [seg s]; seg := [];
      segstages := segstages s; running := running s + 1; maxrun := N.max (maxrun s) (running s + 1) |}.
 
 Definition clear_flushing (s : st) : st :=
   {| mem := mem s; stages := stages s; flushing := None; inflight := inflight s; pending := None;
      store := store s; cache := cache s; gen := gen s; flen := flen s; fsize := fsize s; closed := closed s;
-     pstart := pstart s; pend := pend s; primary := primary s; flog := flog s; segs := segs s; seg := seg s;
+     pstart := pstart s; pend := pend s; primary := primary s; tmrun := tmrun s; perr := None; flog := flog s; segs := segs s; seg := seg s;
      segstages := segstages s; running := running s; maxrun := maxrun s |}.
+
+(* handleAlreadyExistErr: an ErrKeyExist coming out of the flush function is reported with the value that the failed
+   flush (= the buffer still referenced as flushingMemDB when the error is received) holds for the key *)
+Definition err_resp (s : st) (dflt : resp) : resp :=
+  match perr s, flushing s with
+  | Some k, Some (_, fb) => RErrExist k (lookup k fb)
+  | _, _ => dflt
+  end.
+
+Definition set_tm (s : st) (b : bool) (pe : option key) : st :=
+  {| mem := mem s; stages := stages s; flushing := flushing s; inflight := inflight s; pending := pending s;
+     store := store s; cache := cache s; gen := gen s; flen := flen s; fsize := fsize s; closed := closed s;
+     pstart := pstart s; pend := pend s; primary := primary s; tmrun := b; perr := pe; flog := flog s; segs := segs s;
+     seg := seg s; segstages := segstages s; running := running s; maxrun := maxrun s |}.
+
+Definition complete_exist (s : st) (k : key) : st :=
+  if inflight s then let s1 := complete s false in set_tm s1 (tmrun s1) (if closed s then None else Some k) else s.
+
+(* the batch holding the primary was acknowledged (batch.isPrimary -> c.run): only for a flush that is really sent *)
+Definition tm_start (s : st) : st :=
+  if inflight s && negb (closed s) && match flushing s with Some (_, fb) => negb (is_nil fb) | None => false end
+  then set_tm s true (perr s) else s.
 
 Definition flush (P : params) (s : st) (force : bool) (memsz : N) (wo : bool) : st * resp :=
   let s0 := set_cache s None in
@@ -237,13 +268,13 @@ Definition flush (P : params) (s : st) (force : bool) (memsz : N) (wo : bool) : 
     | Some _ =>
         let '(s1, r) := wait s0 wo in
         if r then let s2 := start_flush (clear_flushing s1) in (s2, RFlush true 0 (flushing s2))
-        else (clear_flushing s1, RFlush false 1 None)
+        else (clear_flushing s1, err_resp s1 (RFlush false 1 None))
     | None => let s2 := start_flush s0 in (s2, RFlush true 0 (flushing s2))
     end.
 
 Definition flush_wait (s : st) (wo : bool) : st * resp :=
   match flushing s with
-  | Some _ => let '(s1, r) := wait s wo in (clear_flushing s1, RWait r)
+  | Some _ => let '(s1, r) := wait s wo in (clear_flushing s1, if r then RWait true else err_resp s1 (RWait false))
   | None => (s, RWait true)
   end.
 
@@ -273,6 +304,10 @@ Definition step (P : params) (s : st) (o : op) : st * resp :=
   | OLen => (s, RNum (blen (mem s) + flen s))
   | OSize => (s, RNum (bsize (mem s) + fsize s))
   | OStoreStep i => (store_step s i, RUnit)
+  | OCompleteExist k => (complete_exist s k, RUnit)
+  | OTmStart => (tm_start s, RUnit)
+  | OEnd => (set_tm s false (perr s), RUnit)
+  | OTm => (s, RNum (if tmrun s then 1 else 0))
   end.
 
 Definition run_from (P : params) (s : st) (ops : list op) : st :=
@@ -416,6 +451,8 @@ Definition flushed_keys (s : st) : list key :=
 (* keys are non-empty (the flush callback uses len(bound) == 0 as "unset") *)
 Definition op_keys_ok (o : op) : bool :=
   match o with OSet k _ => negb (is_nil k) | ODel k => negb (is_nil k) | _ => true end.
+
+Definition last_flog (s : st) : N * buf * bool := last (flog s) (0, [], false).
 
 Fixpoint mem_nat (n : nat) (l : list nat) : bool :=
   match l with [] => false | x :: r => Nat.eqb n x || mem_nat n r end.
